@@ -55,7 +55,7 @@ def depthLt (b : Book) (y x : Nat) : Bool :=
   (b.nd y).depth < (b.nd x).depth || ((b.nd y).depth == (b.nd x).depth && y < x)
 
 def sortByDepth (b : Book) (l : List Nat) : List Nat :=
-  l.foldr (fun x acc => let (a, c) := acc.span (fun y => depthLt b y x); a ++ x :: c) []
+  l.foldr (fun x acc => acc.takeWhile (fun y => depthLt b y x) ++ x :: acc.dropWhile (fun y => depthLt b y x)) []
 
 /-- `BookNode::updateScores` on node `start` -/
 def updateScores (fixed : Bool) (b : Book) (start : Nat) : Book :=
